@@ -143,21 +143,42 @@ def build_harness(race=False):
         return exe, "cached"
     if os.path.exists(exe):
         os.remove(exe)
-    overlay = {"Replace": {}}
-    for src in harness_sources():
-        base = os.path.basename(src)[:-3]
-        overlay["Replace"][os.path.join(REPO, "zz_verif_%s_test.go" % base)] = src
-    ov = os.path.join(BUILD, "overlay-race.json" if race else "overlay.json")
-    json.dump(overlay, open(ov, "w"))
-    cmd = ["go", "test", "-c", "-tags", "verif", "-vet=off", "-overlay", ov, "-o", exe]
-    if race:
-        cmd.insert(3, "-race")
-    cmd.append(".")
-    rc, out = run(cmd, cwd=REPO, env=GOENV, timeout=1200)
-    if rc != 0:
+    # A change to /repo may break the compilation of ONE harness file (it touches an internal that the change
+    # renamed or removed). Such files are dropped one by one (never main.go) so that the remaining streams can
+    # still run and look for a failing input; the dropped files are reported as a broken correspondence.
+    srcs = harness_sources()
+    dropped = []
+    out = ""
+    for attempt in range(8):
+        overlay = {"Replace": {}}
+        for src in srcs:
+            base = os.path.basename(src)[:-3]
+            overlay["Replace"][os.path.join(REPO, "zz_verif_%s_test.go" % base)] = src
+        ov = os.path.join(BUILD, "overlay-race.json" if race else "overlay.json")
+        json.dump(overlay, open(ov, "w"))
+        cmd = ["go", "test", "-c", "-tags", "verif", "-vet=off", "-overlay", ov, "-o", exe]
+        if race:
+            cmd.insert(3, "-race")
+        cmd.append(".")
+        rc, out = run(cmd, cwd=REPO, env=GOENV, timeout=1200)
+        if rc == 0:
+            break
+        bad = (set(re.findall(r"zz_verif_(\w+?)_test\.go:\d+", out)) | set(re.findall(r"/harness/(\w+)\.go:\d+", out))) - {"main"}
+        bad = {b for b in bad if any(os.path.basename(x)[:-3] == b for x in srcs)}
+        if not bad:
+            return None, out
+        dropped += sorted(bad)
+        srcs = [x for x in srcs if os.path.basename(x)[:-3] not in bad]
+    else:
         return None, out
+    LAST_DROPPED[race] = dropped
+    if dropped:
+        return exe, "DROPPED harness files (do not compile against the tree): " + ", ".join(dropped) + "\n" + out
     open(stamp, "w").write(h)
     return exe, out
+
+
+LAST_DROPPED = {}
 
 
 def _limits():
